@@ -110,7 +110,7 @@ package rfc8628
 //@   ensures [C06.lookup-then-validate] err == nil ==> validated_n[code] > old(validated_n[code])
 //@   ensures [C16.tokens-only-if-accepted] err == nil ==> dev_live[sig] && dev_req[sig] != nil && dev_req[sig].GetUserCodeState() != fosite.UserCodeUnused && dev_req[sig].GetUserCodeState() != fosite.UserCodeRejected
 //@   ensures [C16.client-bound] err == nil ==> dev_client[sig] == requester.GetClient().GetID()
-//@   ensures [C16.grant-copied] err == nil ==> requester.GetID() == dev_rid[sig] && requester.GetSession() == dev_req[sig].GetSession() && requester.GetRequestedScopes() == dev_req[sig].GetRequestedScopes() && requester.GetRequestedAudience() == dev_req[sig].GetRequestedAudience()
+//@   ensures [C16.grant-copied] err == nil ==> requester.GetID() == dev_rid[sig] && requester.GetSession() == dev_req[sig].GetSession() && sameset(requester.GetRequestedScopes(), dev_req[sig].GetRequestedScopes()) && sameset(requester.GetRequestedAudience(), dev_req[sig].GetRequestedAudience())
 //@   let polled = c.CanHandleTokenEndpointRequest(ctx, requester) && old(requester.GetClient().GetGrantTypes()).Has("urn:ietf:params:oauth:grant-type:device_code") && c.DeviceCodeStrategy != nil && faults == old(faults) && !rl_blocked
 //@   ensures [C16.pending] dev_live[sig] && dev_req[sig].GetUserCodeState() == fosite.UserCodeUnused ==> err != nil
 //@   ensures [C16.pending] polled && dev_live[sig] && dev_req[sig].GetUserCodeState() == fosite.UserCodeUnused ==> ekind(err) == "authorization_pending" || ekind(err) == "server_error"
